@@ -29,18 +29,19 @@ namespace TrRouting {
   TransitData::TransitData(DataFetcher& fetcher, bool cacheAllScenarios) :
     dataFetcher(fetcher)
   {
-    DataStatus loadStatus = loadAllData();
-    if (loadStatus != DataStatus::READY) {
-      //TODO For now, don't throw on error because Transit server expect to get the dataStatus
-      //throw std::exception("Incomplete transit data");
-      spdlog::error("TransitData loading had error, object will not be valid");
-    }
+    // The cache must exist before the data is loaded: loading clears it
     if (cacheAllScenarios) {
       scenarioConnectionCache = new ScenarioConnectionCacheAll();
       spdlog::info("Will cache all connectionSets");
     } else {
       scenarioConnectionCache = new ScenarioConnectionCacheOne();
       spdlog::info("Will cache one connectionSet");
+    }
+    DataStatus loadStatus = loadAllData();
+    if (loadStatus != DataStatus::READY) {
+      //TODO For now, don't throw on error because Transit server expect to get the dataStatus
+      //throw std::exception("Incomplete transit data");
+      spdlog::error("TransitData loading had error, object will not be valid");
     }
   }
 
@@ -133,11 +134,15 @@ namespace TrRouting {
 
   int TransitData::updateScenarios(std::string customPath)
   {
+    // The cached connection sets were computed from the scenarios being replaced
+    scenarioConnectionCache->clear();
     return dataFetcher.getScenarios(scenarios, getServices(), getLines(), getAgencies(), getNodes(), getModes(), customPath);
   }
 
   int TransitData::updateSchedules(std::string customPath)
   {
+    // The cached connection sets refer to the trips and connections being replaced
+    scenarioConnectionCache->clear();
     int ret =  dataFetcher.getSchedules(
       trips,
       getLines(),
